@@ -75,6 +75,8 @@ def gen_world_plan(rng, backends=BACKENDS, **synth_kw):
                                ["donn\u00e9es"], ["\u30c7\u30fc\u30bf", "my data"],
                                ["scene#2"], ["a%2Db", "q?x=1"]])
     plan["trailing_slash"] = rng.random() < 0.25
+    # interpreter configuration for the code under test: python -O / -OO in one run out of five
+    plan["optimize"] = rng.choice([0] * 8 + [1, 2])
     return plan
 
 
